@@ -650,20 +650,55 @@ def check(ctx):
     ctx.require(outer is not None, f"object(): closure {fname} not found")
     builds_object = any(isinstance(c, ast.Call) and (dotted(c.func) or "").endswith("ObjectMethod") for c in walk_no_nested(outer.node))
     vparam = outer.params[1] if len(outer.params) > 1 else "validators"
+    # the two halves of the partition: comprehensions filtered on `owner is None` / `is not None`, or lists filled by one loop
     part_free = [n for n in ast.walk(outer.node) if isinstance(n, (ast.ListComp, ast.GeneratorExp)) and norm(n.generators[0].iter) == vparam and any(norm(i) in ("v.owner is None", "validator.owner is None") for i in n.generators[0].ifs)]
     part_reg = [n for n in ast.walk(outer.node) if isinstance(n, (ast.ListComp, ast.GeneratorExp)) and norm(n.generators[0].iter) == vparam and any(norm(i) in ("v.owner is not None", "validator.owner is not None") for i in n.generators[0].ifs)]
-    ctx.check(not builds_object and bool(part_free) and bool(part_reg), "C10.R13", f"{ob.qualname}:partition", None,
+    free_names, reg_names = set(), set()
+    for a in walk_no_nested(outer.node):
+        if isinstance(a, (ast.Assign, ast.AnnAssign)) and getattr(a, "value", None) is not None:
+            tg = a.targets[0] if isinstance(a, ast.Assign) else a.target
+            if isinstance(tg, ast.Name):
+                if any(x is c_ for c_ in part_free for x in ast.walk(a.value)):
+                    free_names.add(tg.id)
+                if any(x is c_ for c_ in part_reg for x in ast.walk(a.value)):
+                    reg_names.add(tg.id)
+    for lp in walk_no_nested(outer.node):
+        if not (isinstance(lp, ast.For) and norm(lp.iter) == vparam and isinstance(lp.target, ast.Name)):
+            continue
+        v_ = lp.target.id
+        for x in ast.walk(lp):
+            # (free if v.owner is None else owned).append(v)
+            if isinstance(x, ast.Call) and isinstance(x.func, ast.Attribute) and x.func.attr == "append" and len(x.args) == 1 and norm(x.args[0]) == v_ and isinstance(x.func.value, ast.IfExp) \
+                    and isinstance(x.func.value.body, ast.Name) and isinstance(x.func.value.orelse, ast.Name) and norm(x.func.value.test) in (f"{v_}.owner is None", f"{v_}.owner is not None"):
+                a_, b_ = x.func.value.body.id, x.func.value.orelse.id
+                if norm(x.func.value.test).endswith("is not None"):
+                    a_, b_ = b_, a_
+                free_names.add(a_)
+                reg_names.add(b_)
+            # if v.owner is None: free.append(v) else: owned.append(v)
+            if isinstance(x, ast.If) and norm(x.test) in (f"{v_}.owner is None", f"{v_}.owner is not None") and x.orelse:
+                def appended(block):
+                    return [c_.func.value.id for s_ in block for c_ in ast.walk(s_) if isinstance(c_, ast.Call) and isinstance(c_.func, ast.Attribute) and c_.func.attr == "append"
+                            and isinstance(c_.func.value, ast.Name) and len(c_.args) == 1 and norm(c_.args[0]) == v_]
+                a_, b_ = appended(x.body), appended(x.orelse)
+                if norm(x.test).endswith("is not None"):
+                    a_, b_ = b_, a_
+                free_names.update(a_)
+                reg_names.update(b_)
+    has_free, has_reg = bool(part_free) or bool(free_names), bool(part_reg) or bool(reg_names)
+    ctx.check(not builds_object and has_free and has_reg, "C10.R13", f"{ob.qualname}:partition", None,
               "every validator reaching an object type is handed to ObjectMethod, which keeps a validator only when its dependency set meets the provided fields: a validator passed with deserialize(Cls, data, validators=[check]) or validators(check) metadata has an empty set and silently never runs (it does run for int, str, list...)",
               ob, rets13[0], detail="validators split on `owner is None`")
-    if part_free and part_reg:
+    if has_free and has_reg:
+        def is_part(e, comps, names):
+            return any(x is c_ for c_ in comps for x in ast.walk(e)) or (isinstance(e, ast.Name) and e.id in names)
         inner_calls = [c for c in walk_no_nested(outer.node) if isinstance(c, ast.Call) and isinstance(c.func, ast.Name) and c.func.id in ob.nested and c.func.id != fname]
-        ok = len(inner_calls) == 1 and len(inner_calls[0].args) >= 2 and any(x is part_reg[0] for x in ast.walk(inner_calls[0].args[1]))
+        ok = len(inner_calls) == 1 and len(inner_calls[0].args) >= 2 and is_part(inner_calls[0].args[1], part_reg, reg_names - free_names)
         ctx.check(ok, "C10.R13", f"{ob.qualname}:registered-to-scheduler", None, "the object node does not receive exactly the validators registered on a class", ob, inner_calls[0] if inner_calls else outer.node, detail="factory(constraints, [v ... if v.owner is not None])")
         wraps13 = [c for c in walk_no_nested(outer.node) if isinstance(c, ast.Call) and (dotted(c.func) or "").endswith("ValidatorMethod")]
         ok = len(wraps13) == 1 and len(wraps13[0].args) == 3 and norm(wraps13[0].args[2]) == "self.aliaser"
         if ok:
-            fv = wraps13[0].args[1]
-            ok = any(x is part_free[0] for x in ast.walk(fv)) or (isinstance(fv, ast.Name) and any(isinstance(a, ast.Assign) and norm(a.targets[0]) == fv.id and any(x is part_free[0] for x in ast.walk(a.value)) for a in walk_no_nested(outer.node)))
+            ok = is_part(wraps13[0].args[1], part_free, free_names - reg_names)
         ctx.check(ok, "C10.R13", f"{ob.qualname}:free-run", None, "the validators without owner are not executed on the constructed object (ValidatorMethod(method, <free>, self.aliaser))", ob, wraps13[0] if wraps13 else outer.node, detail="ValidatorMethod(method, free_validators, self.aliaser)")
     vinit = model.func(f"{VALIDATORS_MOD}.Validator.__init__")
     ctx.check(any(isinstance(a, (ast.Assign, ast.AnnAssign)) and norm(a.targets[0] if isinstance(a, ast.Assign) else a.target) == "self.owner" and norm(a.value) == "None" for a in walk_no_nested(vinit.node)), "C10.R13", f"{vinit.qualname}:owner", None,
